@@ -91,17 +91,21 @@ func (c *tamperCtx) judge(name, field, params string, wire []byte) {
 		ev.Class("tamper-noop")
 		return
 	}
+	at, sf := "", field+"@later-height"
+	if c.h == c.state.InitialHeight {
+		at, sf = "@initial-height", field+"@initial-height"
+	}
 	var m *types.Block
 	var err error
 	ev.Guard(t, ct, func() { m, err = fromWire(wire) })
 	if err != nil {
-		c.stats[field+"|rejected-on-receipt(decode/ValidateBasic)"]++
+		c.stats[sf+"|rejected-on-receipt(decode/ValidateBasic)"]++
 		ev.Case(false, canon, "tamper", "tamper:rejected-on-receipt")
 		return
 	}
 	if fpBlock(m) == c.ofp {
 		// the same block in other bytes (a wire-only field, or a value the decoder normalises): not a different block
-		c.stats[field+"|same-block-other-bytes"]++
+		c.stats[sf+"|same-block-other-bytes"]++
 		ev.Class("tamper-same-block-other-bytes")
 		return
 	}
@@ -118,7 +122,7 @@ func (c *tamperCtx) judge(name, field, params string, wire []byte) {
 		panicked = false
 	})
 	if panicked { // a known panic key: counted under excluded_known by Guard
-		c.stats[field+"|validation-panics"]++
+		c.stats[sf+"|validation-panics"]++
 		ev.Case(true, canon, "tamper", "tamper:validation-panics")
 		return
 	}
@@ -129,11 +133,7 @@ func (c *tamperCtx) judge(name, field, params string, wire []byte) {
 	if coldErr == nil {
 		vs = "validation-accepts"
 	}
-	c.stats[field+"|"+hs+"+"+vs]++
-	at := ""
-	if c.h == c.state.InitialHeight {
-		at = "@initial-height"
-	}
+	c.stats[sf+"|"+hs+"+"+vs]++
 	switch {
 	case coldErr == nil && idSame:
 		ev.Violation(t, "block.id-does-not-bind:"+fieldGroup(field), canon, "mutation %s (%s) gives a different block that is valid for the same state and has the SAME BlockID %v\norig: %s\nmut:  %s", name, params, c.oid, c.ofp, fpBlock(m))
@@ -731,7 +731,7 @@ func TestTamper(t *testing.T) {
 		s.Start()
 		var ok bool
 		var why string
-		ev.Guard(t, nil, func() { ok, _, why = s.SyncRun(s.Correct, H+1, 2000) })
+		ev.Guard(t, nil, func() { ok, _, why = s.SyncRun(s.Correct, H+1, 400) })
 		if !ok {
 			t.Fatalf("harness: could not build the chain: %s", why)
 		}
